@@ -64,6 +64,10 @@ def _is_simple(vertices):
     Bentley-Ottmann algorithm to check for intersections between the line
     segments.
     """
+    # The sweep-line code uses absolute tolerances: bring the polygon to unit size.
+    vertices = np.asarray(vertices, dtype=np.float64)
+    vertices = vertices - np.mean(vertices, axis=0)
+    vertices = vertices / np.max(np.abs(vertices))
     return len(poly_point_isect.isect_polygon(vertices)) == 0
 
 
